@@ -215,3 +215,15 @@ package font
 //@   loop 2 invariant [this-script] forall(j, 0, rangeindex+1, langSysOK(s.LangSys[j], fCount)) && implies(s.DefaultLangSys != nil, langSysOK(*s.DefaultLangSys, fCount))
 //@   loop 3 invariant [shape] len(out.Scripts) == len(table.ScriptList.Scripts) && len(out.Features) == fCount && fresh(out.Scripts) && fresh(out.Features)
 //@   loop 3 invariant [kept] forall(i, 0, len(out.Scripts), forall(j, 0, len(out.Scripts[i].LangSys), langSysOK(out.Scripts[i].LangSys[j], fCount)) && implies(out.Scripts[i].DefaultLangSys != nil, langSysOK(*out.Scripts[i].DefaultLangSys, fCount)))
+//
+// post format 2.0: a table accepted by sanitize only holds name indexes below 258 + the number of custom names, which
+// is what glyphName needs to index Strings.
+//@ func postNames20.sanitize C09c
+//@   mode int
+//@   ensures [indexes-valid] implies(result == nil, forall(k, 0, len(p.GlyphNameIndexes), int(p.GlyphNameIndexes[k]) < numBuiltInPostNames + len(p.Strings)))
+//@   modifies nothing
+//@   loop 1 invariant [max-so-far] forall(k, 0, rangeindex+1, p.GlyphNameIndexes[k] <= maxIndex && p.GlyphNameIndexes[k] <= 32767)
+//@ func postNames20.glyphName C09c
+//@   mode int
+//@   requires [indexes-valid] forall(k, 0, len(p.GlyphNameIndexes), int(p.GlyphNameIndexes[k]) < numBuiltInPostNames + len(p.Strings))
+//@   modifies nothing
